@@ -74,7 +74,6 @@ let static_dir (vds : vardef list) (d : directive) : bool option =
       | VBool x -> Some x
       | VVar x -> (match List.find_opt (fun vd -> vd.vd_name = x) vds with
           | Some { vd_default = Some (VBool y); _ } -> Some y
-          | Some { vd_default = Some _; _ } -> Some !garbage   (* Go indexes its {false,true} table with the ref of a non-boolean default *)
           | _ -> None)
       | _ -> None in
     (match bv with Some x -> Some (if n = "skip" then x else not x) | None -> None)
